@@ -120,6 +120,8 @@ def base_spec(shape, palette: int = 0) -> NetSpec:
 
 def vsl_options(N):
     opts = [(0,), (N - 1,), tuple(range(N)), ()]
+    if N >= 3:
+        opts.append((0, N - 1))  # a set with a gap: an unlimited segment between two limited ones
     out = []
     for o in opts:
         if o not in out:
@@ -269,7 +271,7 @@ def harness_specs(palette=0):
                               (OriginS(0, "ideal", C[0]), OriginS(1, "simp_lim", C[1]), OriginS(2, "simp_unl", C[2])),
                               (DestS(3, "free"),))
     # long links: more than 10 segments (and VSL signs on two-digit segment indices)
-    H["long"] = NetSpec(3, (L(0, 0, 1, 12, (0, 10, 11)), L(1, 1, 2, 11)), (OriginS(0, "main", C[0]), OriginS(1, "ramp_out", C[1])),
+    H["long"] = NetSpec(3, (L(0, 0, 1, 12, (1, 8, 11)), L(1, 1, 2, 11)), (OriginS(0, "main", C[0]), OriginS(1, "ramp_out", C[1])),
                         (DestS(2, "cong"),))
     for k, s in H.items():
         assert spec_valid(s), k
